@@ -68,12 +68,41 @@ type scenario struct {
 	// slowNode >= 0: this node receives every request a few milliseconds late (a node that is busy): what one node group of a
 	// batch is still doing when another group has already failed
 	slowNode int
+	// failNode >= 0: this node drops the connection instead of executing the first data command it receives after the
+	// migrations have fired (a node that fails while another node group of the same batch is still being redirected)
+	failNode int
+}
+
+// failFastScenario: blocking batches that span two nodes while the slot of one key is handed over to a busy node and the
+// node of the other key drops its connection: one node group of a batch fails at once, the other is still being redirected
+func failFastScenario(r *hx.Rng, id int) *scenario {
+	sc := &scenario{id: id, mode: "batch", start: int64(100 + r.Intn(900)), batch: 3, slowNode: -1, failNode: -1}
+	k1 := []byte(fmt.Sprintf("{m%d}moved", r.Intn(4000)))
+	k2 := []byte(fmt.Sprintf("{f%d}fails", r.Intn(4000)))
+	for fakeredis.HashSlot(k2)*3/16384 == fakeredis.HashSlot(k1)*3/16384 {
+		k2 = []byte(fmt.Sprintf("{f%d}fails", r.Intn(4000)))
+	}
+	sc.keys = [][]byte{k1, k2}
+	a, c := fakeredis.HashSlot(k1)*3/16384, fakeredis.HashSlot(k2)*3/16384
+	b := 3 - a - c
+	n := 9 + r.Intn(6)
+	for i := 0; i < n; i++ {
+		k := 0
+		if i%3 == 2 {
+			k = 1
+		}
+		sc.cmds = append(sc.cmds, srcCmd{name: "rpush", args: [][]byte{sc.keys[k], []byte(fmt.Sprintf("v%d", i+1))}, key: k, keys: []int{k}})
+	}
+	at := r.Intn(3)
+	sc.steps = []migStep{{at: at, kind: "begin", key: 0, dst: b}, {at: at, kind: "finish", key: 0}}
+	sc.slowNode, sc.failNode = b, c
+	return sc
 }
 
 // coldMoveScenario: pipelined replay, a hot key whose slot never moves and a cold key on another node whose slot is handed over
 // early: the MOVED answer makes the client refresh its slot map while batches of the hot key are in flight on a slow connection
 func coldMoveScenario(r *hx.Rng, id int) *scenario {
-	sc := &scenario{id: id, mode: "pipeline", start: int64(100 + r.Intn(900)), batch: 1, slowOld: true, slowNode: -1}
+	sc := &scenario{id: id, mode: "pipeline", start: int64(100 + r.Intn(900)), batch: 1, slowOld: true, slowNode: -1, failNode: -1}
 	hot := []byte(fmt.Sprintf("{h%d}hot", r.Intn(40)))
 	cold := []byte(fmt.Sprintf("{c%d}cold", r.Intn(40)))
 	for fakeredis.HashSlot(cold)*3/16384 == fakeredis.HashSlot(hot)*3/16384 {
@@ -99,7 +128,7 @@ func coldMoveScenario(r *hx.Rng, id int) *scenario {
 
 // hotScenario: one hot key, single-command batches, one instant hand-over early in the run
 func hotScenario(r *hx.Rng, id int) *scenario {
-	sc := &scenario{id: id, mode: []string{"pipeline", "batch"}[r.Intn(2)], start: int64(100 + r.Intn(900)), batch: 1 + r.Intn(2), slowNode: -1}
+	sc := &scenario{id: id, mode: []string{"pipeline", "batch"}[r.Intn(2)], start: int64(100 + r.Intn(900)), batch: 1 + r.Intn(2), slowNode: -1, failNode: -1}
 	sc.keys = [][]byte{[]byte(fmt.Sprintf("{h%d}hot", r.Intn(40))), []byte(fmt.Sprintf("{c%d}cold", r.Intn(40)))}
 	n := 10 + r.Intn(8)
 	for i := 0; i < n; i++ {
@@ -120,7 +149,7 @@ func hotScenario(r *hx.Rng, id int) *scenario {
 }
 
 func genScenario(r *hx.Rng, id int, maxCmds int) *scenario {
-	sc := &scenario{id: id, mode: []string{"batch", "pipeline", "txn", "txnpipe"}[r.Intn(4)], start: int64(100 + r.Intn(900)), batch: 1 + r.Intn(4), slowNode: -1}
+	sc := &scenario{id: id, mode: []string{"batch", "pipeline", "txn", "txnpipe"}[r.Intn(4)], start: int64(100 + r.Intn(900)), batch: 1 + r.Intn(4), slowNode: -1, failNode: -1}
 	if r.Chance(30) {
 		sc.slowNode = r.Intn(3)
 	}
@@ -273,13 +302,32 @@ func runScenario(sc *scenario, tr *hx.Trace) int {
 			fired++
 		}
 	}
+	if sc.failNode >= 0 && sc.failNode < len(cs.Nodes) {
+		var failed atomic.Bool
+		cs.Nodes[sc.failNode].PreExec = func(connID int, db int, name string, args [][]byte, inMulti bool) (interface{}, fakeredis.Action) {
+			if name == "rpush" && armed.Load() && len(migLog) > 0 && !failed.Swap(true) {
+				return nil, fakeredis.CloseConn
+			}
+			return nil, fakeredis.Proceed
+		}
+	}
 	if sc.slowNode >= 0 && sc.slowNode < len(cs.Nodes) {
+		var firstHeld atomic.Bool
 		cs.Nodes[sc.slowNode].Gate = func(connID int, name string, args [][]byte) <-chan struct{} {
 			if name != "rpush" && name != "del" {
 				return nil
 			}
+			d := 4 * time.Millisecond
+			if sc.failNode >= 0 {
+				// the first command that reaches the new owner (the redirected one of the failing batch) stays on its way for
+				// longer than the sender waits before it retries a failed batch (1 s); everything else is served at once
+				if firstHeld.Swap(true) {
+					return nil
+				}
+				d = 1300 * time.Millisecond
+			}
 			ch := make(chan struct{})
-			time.AfterFunc(4*time.Millisecond, func() { close(ch) })
+			time.AfterFunc(d, func() { close(ch) })
 			return ch
 		}
 	}
@@ -443,7 +491,9 @@ func runScenario(sc *scenario, tr *hx.Trace) int {
 			time.Sleep(500 * time.Microsecond)
 		}
 		stalled := !ended && !complete()
+		sourceEnded := false // an EOF is the end of the source stream only when the harness has ended it
 		if !ended {
+			sourceEnded = true
 			// let in-flight receives finish, then stop the run the way a stopped source ends it
 			time.Sleep(5 * time.Millisecond)
 			feed.CloseWith(io.EOF)
@@ -466,7 +516,8 @@ func runScenario(sc *scenario, tr *hx.Trace) int {
 		waitNoConns(cs, "end of run")
 		flush()
 		es := ""
-		isErr := sendErr != nil && !errors.Is(sendErr, io.EOF)
+		// (a node that closes its connection surfaces as io.EOF as well: that one is an error the tool reports)
+		isErr := sendErr != nil && !(errors.Is(sendErr, io.EOF) && sourceEnded)
 		if sendErr != nil {
 			es = sendErr.Error()
 			if len(es) > 300 {
@@ -521,7 +572,9 @@ func main() {
 		}
 		r := hx.NewRng(*seed*104729 + uint64(s))
 		sc := genScenario(r, s+1+*idBase, *maxCmds)
-		if *hot > 0 && s%*hot == 0 && s%(2**hot) != 0 {
+		if *hot > 0 && s%*hot == 1 && s%(2**hot) == 1 {
+			sc = failFastScenario(r, s+1+*idBase)
+		} else if *hot > 0 && s%*hot == 0 && s%(2**hot) != 0 {
 			sc = coldMoveScenario(r, s+1+*idBase)
 		} else if *hot > 0 && s%*hot == 0 {
 			sc = hotScenario(r, s+1+*idBase)
